@@ -15,6 +15,7 @@ CONFIGS = [(0, "selector optimize=True", lambda: ExactAlgorithm(optimize=True), 
 
 
 class Exact(Suite):
+    names_rate, past_rate = 0.06, 0.06     # hostile element names / datasets with a past (gen.decorate_cases)
     name = "exact"
     imports = ["Scheme", "Rank", "Partition", "Judge.JOpt"]
     judge = "judge_exact"
